@@ -1,4 +1,4 @@
-from . import c09, c10, c13, c16, fixedchk, graph, sem, text
+from . import c07, c09, c10, c13, c16, fixedchk, graph, sem, text
 
 CHECKS = {
     "C01": sem.run,
@@ -7,6 +7,7 @@ CHECKS = {
     "C04": text.c04,
     "C05": fixedchk.c05,
     "C06": fixedchk.c06,
+    "C07": c07.run,
     "C08": fixedchk.c08,
     "C09": c09.run,
     "C10": c10.run,
